@@ -13,7 +13,7 @@ R4 who may write: outside journaled_state.rs, account fields of the journaled st
    by the enumerated transaction-level functions (all outside any checkpoint).
 """
 from cfg import cfg_of, Origins
-from symx import Symx, Budget, render
+from symx import Symx, Budget, render, lit_truth
 
 META = {
     'level': 'other',
@@ -140,6 +140,7 @@ def run(ctx, rep):
     check_writers(ctx, rep)
     check_recorded_values(fx, rep)
     check_revert_flag(fx, rep)
+    check_undo_values(fx, rep)
     # the fork flags handed to journal_revert / touch handling are gates the right way round (C05)
     import engine
     import c05
@@ -505,3 +506,116 @@ def check_writers(ctx, rep):
                 rep.ok('R4-writers', key, ALLOWED_WRITERS[base], nontrivial=False)
             else:
                 rep.violation('R4-writers', key, '%s writes account%s of the journaled state outside journaled_state.rs without a journal entry' % (base, hit), f.where())
+
+
+def check_undo_values(fx, rep):
+    """R1b: each revert arm restores the value the entry recorded, to the account the entry names:
+    AccountDestroyed re-sets the selfdestructed flag to `was_destroyed`, gives `had_balance` back to
+    `address` and takes it from `target` iff they differ; BalanceTransfer gives `balance` back to
+    `from` and takes it from `to`; NonceChange decrements; AccountCreated clears the created flag and
+    the nonce; StorageChanged writes `had_value`; TransientStorageChange re-inserts `had_value` or
+    removes the key when it was zero; CodeChange restores the empty code hash and no code;
+    AccountTouched clears the touch except for the RIPEMD precompile from Spurious Dragon on;
+    the two warm entries re-cool."""
+    f = fx.fns.get(JS + 'journal_revert')
+    adt = fx.adts.get('revm::journaled_state::JournalEntry')
+    if f is None or adt is None:
+        return
+    byd = {v.get('discr', i): v['name'] for i, v in enumerate(adt['variants'])}
+    try:
+        rs = Symx(fx, pure=PURE, max_paths=3000, snapshot_refs=True).run(f)
+    except Budget:
+        rep.undecided('R1-undo-values', 'journal_revert', 'path budget', f.where())
+        return
+    problems = {}
+    seen = set()
+
+    def fld(txt, kind, name):
+        return txt.replace(' ', '').endswith('@%s.%s' % (kind, name))
+
+    for p in rs:
+        kind = None
+        for (sv, lit, _f, _b) in p.lits:
+            if sv[0] == 'discr' and sv[2].endswith('JournalEntry') and lit[0] == 'eq':
+                kind = byd.get(lit[1])
+        if kind is None:
+            continue
+        seen.add(kind)
+        lits = [(render(l[0]), lit_truth(l[1])) for l in p.lits]
+        # events with the account each one acts on (the key of the latest get_mut)
+        cur = None
+        evs = []
+        for e in p.events:
+            s = e[0].split('::')[-1]
+            if s == 'get_mut' and len(e[1]) > 1:
+                cur = render(e[1][1])
+            evs.append((s, cur, [render(a) for a in e[1]]))
+        names = [s for s, _c, _a in evs]
+        stores = {(''.join(path)): render(v) for (root, path), v in p.stores.items() if path}
+
+        def bad(msg):
+            problems.setdefault(kind, msg)
+        if kind == 'AccountDestroyed':
+            wd = [t for x, t in lits if fld(x, kind, 'was_destroyed')]
+            differ = [t for x, t in lits if x.startswith('ne(') and 'AccountDestroyed.address' in x and 'AccountDestroyed.target' in x]
+            if not wd or wd[0] is None:
+                bad('the selfdestructed flag is not restored from `was_destroyed` (there can be several self-destructs of one account in a transaction)')
+            elif ('mark_selfdestruct' in names) != bool(wd[0]) or ('unmark_selfdestruct' in names) == bool(wd[0]):
+                bad('with was_destroyed=%s the flag is %s' % (wd[0], 'set' if 'mark_selfdestruct' in names else 'cleared'))
+            adds = [(c, a) for s, c, a in evs if s == 'add_assign']
+            subs = [(c, a) for s, c, a in evs if s == 'sub_assign']
+            if len(adds) != 1 or not fld(adds[0][0] or '', kind, 'address') or not fld(adds[0][1][1], kind, 'had_balance'):
+                bad('had_balance is not given back to `address`')
+            if differ and differ[0] is True:
+                if len(subs) != 1 or not fld(subs[0][0] or '', kind, 'target') or not fld(subs[0][1][1], kind, 'had_balance'):
+                    bad('had_balance is not taken back from `target`')
+            elif subs:
+                bad('balance is subtracted although address == target')
+        elif kind == 'BalanceTransfer':
+            adds = [(c, a) for s, c, a in evs if s == 'add_assign']
+            subs = [(c, a) for s, c, a in evs if s == 'sub_assign']
+            if len(adds) != 1 or not fld(adds[0][0] or '', kind, 'from') or not fld(adds[0][1][1], kind, 'balance'):
+                bad('the amount is not given back to `from`')
+            if len(subs) != 1 or not fld(subs[0][0] or '', kind, 'to') or not fld(subs[0][1][1], kind, 'balance'):
+                bad('the amount is not taken back from `to`')
+        elif kind == 'NonceChange':
+            v = stores.get('.info.nonce', '')
+            if not (v.startswith('Sub(') and v.endswith('.info.nonce, 1)')):
+                bad('the nonce is not decremented by one (%s)' % v[:60])
+        elif kind == 'AccountCreated':
+            if 'unmark_created' not in names or stores.get('.info.nonce') != '0':
+                bad('created flag / nonce not reset')
+        elif kind == 'StorageChanged':
+            v = stores.get('.present_value', '')
+            if not fld(v, kind, 'had_value'):
+                bad('the slot is not set back to had_value (%s)' % v[:60])
+        elif kind == 'TransientStorageChange':
+            z = [t for x, t in lits if x.startswith('is_zero(') and 'had_value' in x]
+            ins = [a for s, c, a in evs if s == 'insert']
+            if not z or z[0] is None:
+                bad('no test whether the previous value was zero')
+            elif z[0] and 'remove' not in names:
+                bad('a previously absent key is not removed')
+            elif not z[0] and (len(ins) != 1 or not fld(ins[0][2], kind, 'had_value') or 'TransientStorageChange.address' not in ins[0][1] or 'TransientStorageChange.key' not in ins[0][1]):
+                bad('the previous value is not re-inserted under (address, key)')
+        elif kind == 'CodeChange':
+            v = stores.get('.info.code_hash', '')
+            if '197, 210, 70, 1, 134, 247' not in v or 'None' not in stores.get('.info.code', ''):
+                bad('code hash / code not reset to empty')
+        elif kind == 'AccountTouched':
+            flag = [t for x, t in lits if x == 'arg4']
+            is3 = [t for x, t in lits if x.startswith('eq(') and 'AccountTouched' not in x[:4]]
+            keep = bool(flag and flag[0]) and bool(is3 and is3[0])
+            if ('unmark_touch' in names) == keep:
+                bad('touch %s with spurious-dragon flag=%s, precompile-3=%s' % ('kept' if keep else 'cleared' if 'unmark_touch' in names else 'kept', flag and flag[0], is3 and is3[0]))
+        elif kind in ('AccountWarmed', 'StorageWarmed'):
+            if 'mark_cold' not in names:
+                bad('not re-cooled')
+    for k in sorted(byd.values()):
+        if k not in seen:
+            continue
+        if k in problems:
+            rep.violation('R1-undo-values', k, 'the revert arm of JournalEntry::%s: %s' % (k, problems[k]), f.where())
+        else:
+            rep.ok('R1-undo-values', k, 'restores the recorded value')
+    rep.floor('R1-undo-value-arms', len(seen), 10)
